@@ -74,12 +74,26 @@ func hxs(s string) string {
 	return hex.EncodeToString([]byte(s))
 }
 
-type frontHdr struct{ id, hb, ow, ser, comp, meta, auth, path, meth, body, urlpath string }
+type frontHdr struct {
+	id, hb, ow, ser, comp, meta, auth, path, meth, body, urlpath string
+	chunked                                                      bool // the body is sent without a Content-Length (Transfer-Encoding: chunked)
+}
+
+// bodyReader: a bytes.Reader tells net/http the length; any other reader makes the client send the body chunked
+func (h frontHdr) bodyReader() io.Reader {
+	if h.chunked {
+		return struct{ io.Reader }{bytes.NewReader([]byte(h.body))}
+	}
+	return bytes.NewReader([]byte(h.body))
+}
 
 func (h frontHdr) line(kind string) string {
 	s := fmt.Sprintf("%s %s %s %s %s %s %s %s %s %s %s", kind, hxs(h.id), hxs(h.hb), hxs(h.ow), hxs(h.ser), hxs(h.comp), hxs(h.meta), hxs(h.auth), hxs(h.path), hxs(h.meth), hxs(h.body))
 	if kind == "gw" {
 		s += " " + hxs(h.urlpath)
+	}
+	if h.chunked {
+		s += " +chunked" // transport detail: the model ignores it
 	}
 	return s
 }
@@ -161,6 +175,7 @@ func genFront(r *common.Rand, safe bool) frontHdr {
 		h.body = `{"Id":1,"A":2,"B":3}`
 	}
 	h.urlpath = pick(r, []string{"/", "/", "/Arith", "/com.example.Arith", "/x/y", "/NoSuch"})
+	h.chunked = r.Chance(30)
 	if safe {
 		// values that survive an HTTP/1.1 header unchanged: no control bytes, no blanks at the ends
 		clean := func(s string) string {
@@ -183,7 +198,7 @@ func genFront(r *common.Rand, safe bool) frontHdr {
 func doConv(o *common.Out, id string, h frontHdr) {
 	line := h.line("conv")
 	o.Begin(id, line)
-	req, _ := http.NewRequest("POST", "http://x/", bytes.NewReader([]byte(h.body)))
+	req, _ := http.NewRequest("POST", "http://x/", h.bodyReader())
 	h.apply(req.Header)
 	m, err := server.HTTPRequest2RpcxRequest(req)
 	obs := "err"
@@ -204,7 +219,7 @@ func doGw(o *common.Out, id string, rg *tcpRig, h frontHdr) {
 	line := h.line("gw")
 	o.Begin(id, line)
 	before, inv0 := rg.rec.count(), rg.invokedCount()
-	req, _ := http.NewRequest("POST", "http://"+rg.addr+h.urlpath, bytes.NewReader([]byte(h.body)))
+	req, _ := http.NewRequest("POST", "http://"+rg.addr+h.urlpath, h.bodyReader())
 	h.apply(req.Header)
 	resp, err := frontClient.Do(req)
 	if err != nil {
@@ -289,7 +304,8 @@ func doJr(o *common.Out, id string, rg *tcpRig, method, meta, auth, params strin
 
 // replayFront re-runs one stored front-end case line.
 func replayFront(o *common.Out, rg *tcpRig, line string) {
-	f := strings.Split(line, " ")
+	chunked := strings.HasSuffix(line, " +chunked")
+	f := strings.Split(strings.TrimSuffix(line, " +chunked"), " ")
 	u := func(i int) string {
 		if i < len(f) {
 			return string(unhx(f[i]))
@@ -298,7 +314,7 @@ func replayFront(o *common.Out, rg *tcpRig, line string) {
 	}
 	switch f[0] {
 	case "conv", "gw":
-		h := frontHdr{id: u(1), hb: u(2), ow: u(3), ser: u(4), comp: u(5), meta: u(6), auth: u(7), path: u(8), meth: u(9), body: u(10), urlpath: u(11)}
+		h := frontHdr{id: u(1), hb: u(2), ow: u(3), ser: u(4), comp: u(5), meta: u(6), auth: u(7), path: u(8), meth: u(9), body: u(10), urlpath: u(11), chunked: chunked}
 		if f[0] == "conv" {
 			doConv(o, "replay", h)
 		} else {
